@@ -1,4 +1,5 @@
 import AwsVerif.Gen.Lookup3
+import AwsVerif.Gen.Lookup3Paths
 /-!
 Byte-wise model of `hashlittle2` (include/aws/common/private/lookup3.inl) and of the content hashes built
 on it in source/hash_table.c: `aws_hash_string`, `aws_hash_c_string`, `aws_hash_byte_cursor_ptr`,
@@ -57,6 +58,60 @@ def hashlittle2 (key : List UInt8) (pc pb : UInt32) : UInt32 × UInt32 :=
   else
     let (_, b, c) := final (a + le32 k 0) (b + le32 k 4) (c + le32 k 8)
     (c, b)
+
+/-! ### the three code paths of the C function, as extracted from the source
+
+`Gen.l3BlockN` / `Gen.l3TailN` list, for the path that loads N bits at a time, the adds of one
+`while (length > 12)` iteration and of each `case` of `switch(length)`.  A term `(target, width, off, mask, shift)`
+is `target += ((little-endian load of width bytes at byte offset off) & mask) << shift`.  `mem` is the memory
+starting at the key pointer: the key's bytes followed by whatever lies behind them — the 32-bit path's tail loads
+whole words and masks, so it does read up to three bytes behind the key. -/
+
+abbrev Term := Nat × Nat × Nat × Nat × Nat
+
+def byteAt (mem : List UInt8) (i : Nat) : UInt32 := (mem.getD i 0).toUInt32
+
+/-- a `width`-byte little-endian load (width 1, 2 or 4): the number `Σ byte i * 256^i` -/
+def load (mem : List UInt8) (width off : Nat) : UInt32 :=
+  if width = 1 then byteAt mem off
+  else if width = 2 then byteAt mem off + (byteAt mem (off + 1) <<< 8)
+  else byteAt mem off + (byteAt mem (off + 1) <<< 8) + (byteAt mem (off + 2) <<< 16) + (byteAt mem (off + 3) <<< 24)
+
+def evalTerm (mem : List UInt8) (t : Term) : UInt32 :=
+  ((load mem t.2.1 t.2.2.1) &&& t.2.2.2.1.toUInt32) <<< t.2.2.2.2.toUInt32
+
+def addTerms (mem : List UInt8) : List Term → UInt32 × UInt32 × UInt32 → UInt32 × UInt32 × UInt32
+  | [], s => s
+  | t :: ts, (a, b, c) =>
+    let v := evalTerm mem t
+    addTerms mem ts (if t.1 = 0 then (a + v, b, c) else if t.1 = 1 then (a, b + v, c) else (a, b, c + v))
+
+/-- the block loop of one path: `mem` is the memory from the current `k` on, `len` the remaining length -/
+def pathBlocks (blk : List Term) : Nat → List UInt8 → Nat → UInt32 → UInt32 → UInt32 →
+    List UInt8 × Nat × UInt32 × UInt32 × UInt32
+  | 0, mem, len, a, b, c => (mem, len, a, b, c)
+  | fuel+1, mem, len, a, b, c =>
+    if len > 12 then
+      let (a, b, c) := addTerms mem blk (a, b, c)
+      let (a, b, c) := mix a b c
+      pathBlocks blk fuel (mem.drop 12) (len - 12) a b c
+    else (mem, len, a, b, c)
+
+def hashlittle2Path (blk : List Term) (tail : List (List Term)) (mem : List UInt8) (len : Nat) (pc pb : UInt32) :
+    UInt32 × UInt32 :=
+  let init := Gen.l3Basis.toUInt32 + len.toUInt32 + pc
+  let (k, n, a, b, c) := pathBlocks blk len mem len init init (init + pb)
+  if n = 0 then (c, b)
+  else
+    let (a, b, c) := addTerms k (tail.getD n []) (a, b, c)
+    let (_, b, c) := final a b c
+    (c, b)
+
+/-- `hashlittle2` as compiled: the path is chosen by the alignment of the key's address -/
+def hashlittle2C (addr : Nat) (mem : List UInt8) (len : Nat) (pc pb : UInt32) : UInt32 × UInt32 :=
+  if addr % 4 = 0 then hashlittle2Path Gen.l3Block32 Gen.l3Tail32 mem len pc pb
+  else if addr % 2 = 0 then hashlittle2Path Gen.l3Block16 Gen.l3Tail16 mem len pc pb
+  else hashlittle2Path Gen.l3Block8 Gen.l3Tail8 mem len pc pb
 
 def join64 (b c : UInt32) : Nat := b.toNat * 2 ^ 32 + c.toNat      -- ((uint64_t)b << 32) | c
 
